@@ -313,7 +313,8 @@ class WfGen:
                     rec["list"] = True
                 rec["pv"] = "all_non_null"
                 return rec, False, None
-        if not is_opt(t) and r < 0.5 and r >= 0.35:
+        if not is_opt(t) and r < 0.5 and r >= 0.35 and not (is_arr(t) and is_opt(t["arr"])):
+            # (cwltool's static checker rejects first/the_only_non_null over sources of type (T?)[]: outside the common domain)
             # first_non_null / the_only_non_null over optional sources
             n = 1 if rng.random() < 0.05 else rng.choice([2, 2, 3])
             pv = rng.choice(["first_non_null", "first_non_null", "the_only_non_null"])
@@ -469,6 +470,10 @@ class WfGen:
                      "lm": rng.choice([None, None, "merge_nested"]), "pv": pv}
             elif is_arr(t) and is_opt(t["arr"]):
                 pv = rng.choice(["first_non_null", "the_only_non_null", "all_non_null", "all_non_null"])
+                if "/" in ref:
+                    # cwltool types the output of a scattered conditional step as (T[])? rather than (T?)[] and rejects
+                    # first/the_only_non_null into a T sink statically: only all_non_null is in the common domain
+                    pv = "all_non_null"
                 o = {"type": arr(t["arr"]["opt"]) if pv == "all_non_null" else t["arr"]["opt"], "src": [ref],
                      "list": False, "lm": None, "pv": pv}
             else:
